@@ -31,7 +31,9 @@ func ServerCallOf(ctx context.Context) *Call {
 // Knobs are the per-call transport parameters and fault plan, fixed before
 // the call starts (generated from the tape by the workload).
 type Knobs struct {
-	MutateURL    bool // the HTTPClient edits request.URL in place (per-call query parameter)
+	PumpLag      time.Duration // after forwarding request-body bytes the transport goroutine is busy this long before it reads again
+	FinishLag    time.Duration // the end of the response (END_STREAM / last chunk) follows the handler's return this late
+	MutateURL    bool          // the HTTPClient edits request.URL in place (per-call query parameter)
 	HTTP2        bool
 	UpWindow     int
 	DownWindow   int
@@ -223,9 +225,11 @@ func Yield(ctx context.Context, point string) {
 
 // Exchange is one HTTP request/response pair.
 type Exchange struct {
-	Call *Call
-	Up   *Link // client -> handler (request body)
-	Down *Link // handler -> client (response body)
+	PumpErrLive bool // the request body failed (not EOF) while the response was still open: stream reset
+	PumpErrLate bool // ... after the response had ended: ignored
+	Call        *Call
+	Up          *Link // client -> handler (request body)
+	Down        *Link // handler -> client (response body)
 
 	mu              sync.Mutex
 	ReqHeader       http.Header // as the handler sees it
@@ -452,8 +456,13 @@ func (e *Exchange) runWatcher() {
 func (e *Exchange) runPump() {
 	req := e.clientReq
 	tmp := make([]byte, 32<<10)
+	var busyUntil time.Time
 	for {
-		e.Call.S.Gate(e.Call.ID+"/up.pump", e.Up.SpacePred())
+		var pred core.Pred = e.Up.SpacePred()
+		if !busyUntil.IsZero() {
+			pred = &lagPred{inner: pred, until: busyUntil}
+		}
+		e.Call.S.Gate(e.Call.ID+"/up.pump", pred)
 		e.mu.Lock()
 		aborted := e.abortErr != nil
 		done := e.HandlerDone
@@ -491,6 +500,9 @@ func (e *Exchange) runPump() {
 			} else {
 				_ = e.Up.Push(tmp[:n], true)
 			}
+			if lag := e.Call.K.PumpLag; lag > 0 {
+				busyUntil = time.Now().Add(lag)
+			}
 		}
 		if err != nil {
 			if errors.Is(err, io.EOF) {
@@ -498,7 +510,10 @@ func (e *Exchange) runPump() {
 			} else if !done {
 				// The client closed or failed the request body before
 				// finishing it: the transport resets the stream.
-				e.Abort(errors.New("client disconnected"))
+				e.PumpErrLive = true
+				e.Abort(fmt.Errorf("client disconnected: request body: %w", err))
+			} else {
+				e.PumpErrLate = true
 			}
 			return
 		}
@@ -546,6 +561,14 @@ func (e *Exchange) runHandler() {
 		e.ServeStart = time.Now()
 		c.Route.ServeHTTP(rw, sreq)
 	}()
+	// The end of the response (END_STREAM / last chunk) is a transport event of
+	// its own, after whatever the handler flushed: other tasks may run between
+	// the two.
+	var fin core.Pred
+	if c.K.FinishLag > 0 {
+		fin = &lagPred{until: time.Now().Add(c.K.FinishLag)}
+	}
+	c.S.Gate(c.ID+"/handler.finish", fin)
 	e.finishHandler()
 }
 
@@ -832,4 +855,29 @@ func addSanitized(into http.Header, k string, vs []string, h2 bool) {
 func stackOf() string {
 	buf := make([]byte, 16<<10)
 	return string(buf[:runtime.Stack(buf, false)])
+}
+
+// lagPred holds a gate closed until an instant on the fake clock (and then
+// defers to the inner predicate, if any).
+type lagPred struct {
+	inner core.Pred
+	until time.Time
+}
+
+//go:norace
+//go:noinline
+func (p *lagPred) Ready(now time.Time) bool {
+	if now.Before(p.until) {
+		return false
+	}
+	return p.inner == nil || p.inner.Ready(now)
+}
+
+//go:norace
+//go:noinline
+func (p *lagPred) Param(t *core.Tape) int {
+	if p.inner == nil {
+		return 0
+	}
+	return p.inner.Param(t)
 }
